@@ -4,4 +4,5 @@ From Coq Require Import ZArith ExtrOcamlBasic ExtrOcamlString.
 From HidV Require Import GenTables OpTables LowerBoolModel LowerStmtModel.
 
 Extraction "../ocaml/hidlowerstmt_core.ml"
-  lower_body lower_stmts need_stmts is_you_senv print_aline Z.add Z.mul Z.opp.
+  lower_body lower_stmts need_stmts is_you_senv print_aline lower_program state_section print_dline
+  Z.add Z.mul Z.opp.
